@@ -45,7 +45,7 @@ def parse_kani_output(out):
     m = re.search(r"VERIFICATION:- (SUCCESSFUL|FAILED)", out)
     if m:
         res["status"] = m.group(1)
-    if re.search(r"CBMC failed with status|CBMC crashed|internal error|Invariant check failed", out) and not re.search(r"Failed Checks:", out):
+    if re.search(r"CBMC failed with status \d+|CBMC crashed", out) and not re.search(r"Failed Checks:", out):
         # a tool crash is not a verdict
         res["status"] = "UNKNOWN"
         res["tool_crash"] = True
